@@ -89,6 +89,7 @@ RunInit(out, e) ==
    wactive |-> FALSE,           \* worker events seen since the last idle point
    dropAcked |-> FALSE,
    owners |-> {},               \* contenders currently holding the directory (C13 schedules)
+   unlocked |-> FALSE,          \* the current instance has released its directory lock (drop in progress)
    out |-> [out EXCEPT !.cnt.runs = @ + 1]]
 
 Viol(m, p, k, e, d) ==
@@ -486,7 +487,7 @@ OpenReturn(m0, e) ==
        ELSE Viol(m, IF m.rejSeen THEN "C06" ELSE "C02", "open_failed", e, [res |-> e.res, dir |-> e.dir])
   ELSE
   LET o == e.obs
-      m1 == [m EXCEPT !.open = TRUE, !.inst = @ + 1, !.cfg = m.pend.args, !.nacc0 = m.nacc,
+      m1 == [m EXCEPT !.open = TRUE, !.inst = @ + 1, !.cfg = m.pend.args, !.nacc0 = m.nacc, !.unlocked = FALSE,
                       !.wl = Append(@, [label |-> e.wl, inst |-> m.inst + 1, dropped |-> FALSE, acked |-> FALSE]),
                       !.pend = NoPend, !.pre = PreOf(o), !.wactive = FALSE, !.dropAcked = FALSE]
       openc == o.chunks[Len(o.chunks)]
@@ -702,6 +703,13 @@ PtStep(m, e) ==
   IF e.p = "set_ev" THEN [m EXCEPT !.evmoved = TRUE, !.evfly = TRUE, !.wactive = TRUE]
   ELSE [m EXCEPT !.wactive = TRUE, !.evfly = FALSE]
 
+\* C14/C13: the directory lock is the last thing a store lets go of; once it is released (another process may
+\* open the directory from that moment on) the store's own worker must not change the directory any more
+FsAfterUnlock(m, e) ==
+  /\ m.unlocked /\ e.t # "c"
+  /\ e.call \in {"write", "unlink", "creat", "ftruncate"}
+  /\ \E k \in 1..Len(m.wl) : m.wl[k].label = e.t /\ m.wl[k].inst = m.inst
+
 \* C14: after the acknowledged drop nothing changes the directory any more
 FsAfterDrop(m, e) ==
   /\ e.t # "c"
@@ -885,7 +893,11 @@ MonStep(m0, e) ==
   ELSE
   CASE e.e = "b"  -> IF e.op = "flush" THEN FlushBegin(m, e) ELSE BeginStep(m, e)
     [] e.e = "r"  -> ReturnStep(m, e)
-    [] e.e = "fs" -> IF FsAfterDrop(m, e)
+    [] e.e = "fs" -> IF e.call = "funlock" /\ e.t = "c" /\ m.pend.op = "drop"
+                     THEN [m EXCEPT !.unlocked = TRUE]
+                     ELSE IF FsAfterUnlock(m, e)
+                     THEN FsStep(ViolKeep(m, "C14", "fs_change_after_lock_released", e, [call |-> e.call, ck |-> e.ck, t |-> e.t]), e)
+                     ELSE IF FsAfterDrop(m, e)
                      THEN FsStep(ViolKeep(m, "C14", "fs_change_after_acknowledged_drop", e, [call |-> e.call, ck |-> e.ck, t |-> e.t]), e)
                      ELSE FsStep(m, e)
     [] e.e = "cb" -> CbStep(m, e)
